@@ -30,7 +30,7 @@ REACH = [("yamlpath/common/keywordsearches.py", "has_child,_has_concrete_child",
          ("yamlpath/common/keywordsearches.py", "distinct,unique,_track_seen_value", "distinct/unique")]
 SIZES = {"quick": 400000, "thorough": 4000000}
 REQUIRED_COUNTERS = ["minmax_checked", "unique_distinct_checked", "has_child_checked", "parent_checked", "name_checked", "chain_checked", "wildcard_parent_checked", "collector_parent_name_checked", "parent_then_name_checked", "nested_collector_keyword_checked",
-                     "reevaluated_with_same_path_object", "multi_branch_minmax_checked"]
+                     "reevaluated_with_same_path_object", "multi_branch_minmax_checked", "key_across_aoh_parent_checked"]
 
 WORDS = ["apple", "bob", "cat", "dog", "emu", "fig"]
 
@@ -297,6 +297,26 @@ def check_records(ctx, rng):
             elif got[0] != "OK" or locs(got[1]) != wantl:
                 ctx.violation("%s/multi-branch" % kw, {"case": {"doc": doc2, "query": q}, "summary": "got %r ; definition selects members %r of each branch" % (
                     got[1] if got[0] != "OK" else [(r.parentref, repr(r.node)[:30]) for r in got[1][:8]], members)})
+    # a key name applied ACROSS an Array-of-Hashes (no index, no wildcard): each match still knows the element it came from
+    if shape == "aoh":
+        for q, want_node in (("recs.w[parent(2)]", cont), ("/recs/w[parent(3)]", data), ("recs.w[parent()][parent()]", cont)):
+            got = run(data, q)
+            ctx.evaluations += 1
+            ctx.counters["key_across_aoh_parent_checked"] = ctx.counters.get("key_across_aoh_parent_checked", 0) + 1
+            if got[0] == "CRASH":
+                ctx.count("crash_handed_to_C15")
+            elif got[0] != "OK" or len(got[1]) != n or any(r.node is not want_node for r in got[1]):
+                ctx.violation("key-across-aoh-then-parent/wrong-ancestor", {"case": {"doc": doc, "query": q}, "summary": "%d records; got %r" % (
+                    n, got[1] if got[0] != "OK" else [repr(r.node)[:40] for r in got[1]])})
+        q = "recs.w[parent()][name()]"
+        got = run(data, q)
+        ctx.evaluations += 1
+        if got[0] == "OK":
+            names = [str(NodeCoords.unwrap_node_coords(r)) for r in got[1]]
+            if names != [str(i) for i in range(n)]:
+                ctx.violation("key-across-aoh-then-parent-name", {"case": {"doc": doc, "query": q}, "summary": "names %r ; the records are elements 0..%d" % (names, n - 1)})
+        elif got[0] == "YPE":
+            ctx.violation("key-across-aoh-then-parent-name", {"case": {"doc": doc, "query": q}, "summary": "raised %s" % got[1]})
     # name() of each member reached as: collected by a wildcard, descended into, climbed back (buffered results must
     # each keep their own coordinates)
     if n >= 2:
